@@ -262,7 +262,9 @@ impl<'a> Suite<'a> {
 		#[cfg(not(feature = "nocrypto"))]
 		if let (Some(der), true) = (&out.der, self.prop == "C07") {
 			// parse the generated request back (within what the parser documents as supported)
-			let supported = p.custom.is_empty() && p.eku.iter().all(|e| !matches!(e, ExtendedKeyUsagePurpose::Other(_)));
+			// (a caller-supplied extensionRequest attribute asks for extensions of the caller's own
+			// choosing: whether the parser supports those is not rcgen's promise)
+			let supported = p.custom.is_empty() && p.eku.iter().all(|e| !matches!(e, ExtendedKeyUsagePurpose::Other(_))) && !attrs.iter().any(|a| a.oid == [1, 2, 840, 113549, 1, 9, 14]);
 			if supported {
 				let key = self.ctx.key(alg);
 				match std::panic::catch_unwind(std::panic::AssertUnwindSafe(|| CertificateSigningRequestParams::from_der(&der.clone().into()))) {
@@ -929,7 +931,50 @@ error: {:?}", out.replay(), e)),
 			}
 			self.csr(&p, &attrs, "ed25519");
 		}
-		self.rep.exhaustive.push("all ordered attribute lists (with repetition) up to the tier's length over a pool of 4 attributes incl. a duplicated OID".into());
+		// caller attributes of the types the generated part uses itself: an extensionRequest of the
+		// caller's own (asking for basicConstraints), alone and next to parameters that make rcgen
+		// write one too; and custom extensions whose identifiers are those of the typed fields
+		{
+			const EXT_REQ: &[u64] = &[1, 2, 840, 113549, 1, 9, 14];
+			// SET { SEQUENCE { Extension { 2.5.29.19, critical, OCTET STRING { SEQUENCE { TRUE } } } } }
+			let own_req = PAttr { oid: EXT_REQ, values: vec![0x31, 0x13, 0x30, 0x11, 0x30, 0x0f, 0x06, 0x03, 0x55, 0x1d, 0x13, 0x01, 0x01, 0xff, 0x04, 0x05, 0x30, 0x03, 0x01, 0x01, 0xff] };
+			for with_params in [false, true] {
+				for extra in [vec![], vec![pool[0].clone()], vec![pool[3].clone(), own_req.clone()]] {
+					let mut p = PCert::default_like();
+					if with_params {
+						p.san = vec![San::Dns("x.example".into())];
+						p.ku = vec![KeyUsagePurpose::DigitalSignature];
+						p.eku = vec![ExtendedKeyUsagePurpose::ServerAuth];
+					}
+					let mut attrs = vec![own_req.clone()];
+					attrs.extend(extra);
+					self.csr(&p, &attrs, "ed25519");
+				}
+			}
+			for (oid, content, with_typed) in [
+				(vec![2u64, 5, 29, 15], vec![0x03, 0x02, 0x07, 0x80], true),
+				(vec![2, 5, 29, 15], vec![0x03, 0x02, 0x07, 0x80], false),
+				(vec![2, 5, 29, 17], vec![0x30, 0x03, 0x82, 0x01, b'q'], true),
+				(vec![2, 5, 29, 17], vec![0x30, 0x03, 0x82, 0x01, b'q'], false),
+				(vec![2, 5, 29, 37], vec![0x30, 0x0a, 0x06, 0x08, 0x2b, 0x06, 0x01, 0x05, 0x05, 0x07, 0x03, 0x02], true),
+				(vec![2, 5, 29, 37], vec![0x30, 0x0a, 0x06, 0x08, 0x2b, 0x06, 0x01, 0x05, 0x05, 0x07, 0x03, 0x02], false),
+			] {
+				let mut p = PCert::default_like();
+				if with_typed {
+					p.san = vec![San::Dns("x.example".into())];
+					p.ku = vec![KeyUsagePurpose::KeyEncipherment];
+					p.eku = vec![ExtendedKeyUsagePurpose::ServerAuth];
+				}
+				p.custom = vec![Custom { oid, critical: false, content }];
+				self.csr(&p, &[], "ed25519");
+				if cfg!(feature = "nocrypto") {
+					p.serial = Some(vec![5]);
+					p.kid = Kid::Pre(vec![1; 20]);
+				}
+				self.cert(&p, None, "ed25519", false);
+			}
+		}
+		self.rep.exhaustive.push("all ordered attribute lists (with repetition) up to the tier's length over a pool of 4 attributes incl. a duplicated OID; a caller-supplied extensionRequest attribute with and without generated extensions; custom extensions under the identifiers of the typed fields, with and without those fields".into());
 	}
 
 	pub fn random_csrs(&mut self, n: usize) {
